@@ -415,9 +415,19 @@ def scenario(rec, rng, cid):
             g.call("fit_model", b.fit_model, preprocessing=copy.deepcopy(s0),
                    preprocessing_options=copy.deepcopy(o0))
         else:
-            g.call("apply_preprocessing", a.apply_preprocessing, steps, opts)
+            # (asking for the details of the steps is a way of calling, not
+            #  a licence to write into the option dictionaries)
+            rd = bool(rng.random() < .4)
+            case["ret_details"] = rd
+            g.call("apply_preprocessing", a.apply_preprocessing, steps, opts,
+                   ret_details=rd)
             g.call("apply_preprocessing", b.apply_preprocessing,
-                   copy.deepcopy(s0), copy.deepcopy(o0))
+                   copy.deepcopy(s0), copy.deepcopy(o0), ret_details=rd)
+            rec.check(opts == o0 and steps == s0,
+                      "argument-mutated/apply_preprocessing/values",
+                      "apply_preprocessing(ret_details=%r) changed the "
+                      "request %r/%r into %r/%r" % (rd, s0, o0, steps, opts),
+                      case)
         compare(a, b, "after-first-call")
         # in place edit
         if sc == "prep_options":
@@ -447,10 +457,11 @@ def scenario(rec, rng, cid):
                        preprocessing=copy.deepcopy(s1),
                        preprocessing_options=copy.deepcopy(o1))
             else:
+                rd2 = bool(rng.random() < .4)
                 g.call("apply_preprocessing", a.apply_preprocessing, steps,
-                       opts)
+                       opts, ret_details=rd2)
                 g.call("apply_preprocessing", b.apply_preprocessing,
-                       copy.deepcopy(s1), copy.deepcopy(o1))
+                       copy.deepcopy(s1), copy.deepcopy(o1), ret_details=rd2)
             compare(a, b, "after-second-call")
             c = gen.make_indentation(data, with_tip=False)
             c.apply_preprocessing(copy.deepcopy(s1), copy.deepcopy(o1))
